@@ -170,22 +170,34 @@ namespace bloch::runtime {
         if (q >= 0 && q < static_cast<int>(m_measured.size()))
             m_measured[q] = false;
         // Put qubit q into |0>.
-        // If the state already has amplitude in the |...0> subspace, zero the |...1> subspace
-        // and renormalize. If all amplitude is in |...1>, deterministically move it into
-        // the |...0> subspace (equivalent to an X on a measured |1>), avoiding NaNs.
+        // Reset discards the qubit's state, so the branch it was in (|...0> or |...1>) is
+        // sampled with the Born weights, exactly as a measurement would: the |...0> branch
+        // zeroes the |...1> subspace and renormalises; the |...1> branch moves its
+        // amplitudes into the |...0> subspace (an X on a measured |1>). Always keeping the
+        // |...0> branch would post-select every qubit entangled with q.
         size_t bit = size_t{1} << q;
         double norm0 = 0.0;
+        double norm1 = 0.0;
         for (size_t i = 0; i < m_state.size(); ++i) {
             if (!(i & bit))
                 norm0 += std::norm(m_state[i]);
+            else
+                norm1 += std::norm(m_state[i]);
         }
 
-        if (norm0 == 0.0) {
-            // All amplitude is in the |...1> subspace: swap it into |...0>.
+        bool fromOne = norm0 == 0.0;
+        if (!fromOne && norm1 > 0.0) {
+            std::uniform_real_distribution<double> dist(0.0, 1.0);
+            fromOne = dist(rng) * (norm0 + norm1) < norm1;
+        }
+
+        if (fromOne) {
+            // Move the |...1> subspace into |...0>, renormalised.
+            double inv = 1.0 / std::sqrt(norm1);
             for (size_t i = 0; i < m_state.size(); ++i) {
                 if (i & bit) {
                     size_t j = i ^ bit;  // flip target bit to 0
-                    m_state[j] = m_state[i];
+                    m_state[j] = m_state[i] * inv;
                     m_state[i] = 0.0;
                 }
             }
